@@ -363,6 +363,51 @@ def run_case(job):
                 agrees = isinstance(got, Exception) if pred is None else (not isinstance(got, Exception) and got == pred)
                 if not agrees:
                     out.append(("drift", f"{vname} differs from its transcription {mv}", {**base, "observed": _show(got), "model": m}))
+    # the other writer routes (family O: names in non-alphabetical order): every route must give the oracle back
+    for route in sorted(set(t.get("routes", [])) - {"write"}):
+        obj = _call(lambda: cogent3.make_aligned_seqs(data, moltype=mtname))
+        if isinstance(obj, Exception):
+            continue
+        rpath = _scratch / f"{stem}_{route}.{SUFFIX[fmt]}"
+        written.append(rpath)
+
+        def produce():
+            if route == "formatter":
+                from cogent3.format.alignment import FORMATTERS
+
+                rpath.write_text(FORMATTERS[fmt](dict(data), **kw))
+            elif route == "to_string":
+                text_ = {"fasta": lambda: obj.to_fasta(block_size=block), "phylip": obj.to_phylip, "json": obj.to_json}[fmt]()
+                rpath.write_text(text_)
+            elif route == "app":
+                import shutil
+
+                dstore = _scratch / f"{stem}_store"
+                try:
+                    ds = cogent3.open_data_store(dstore, suffix=SUFFIX[fmt], mode="w")
+                    writer = cogent3.get_app("write_seqs", data_store=ds, format=fmt)
+                    m = writer.main(obj, identifier=f"x.{SUFFIX[fmt]}")
+                    rpath.write_text(m.read())
+                finally:
+                    shutil.rmtree(dstore, ignore_errors=True)
+            else:
+                raise ValueError(route)
+
+        w = _call(produce)
+        got = w if isinstance(w, Exception) else _call(lambda: _project_coll(cogent3.load_aligned_seqs(rpath, moltype=mtname)))
+        stats["loads"] += 1
+        stats["route_roundtrips"] = stats.get("route_roundtrips", 0) + 1
+        d = diff_kind(got, exp, allowed_bytes)
+        if d:
+            out.append(("fail", f"{fmt}:route={route}:{cls}:{d}", f"written through route {route}, loaded with load_aligned_seqs",
+                        {**base, "route": route, "observed": _show(got)}))
+        if not isinstance(w, Exception) and route == "app" and fmt != "json":
+            got = _call(lambda: _project_coll(cogent3.get_app("load_aligned", format=fmt, moltype=mtname).main(str(rpath))))
+            stats["loads"] += 1
+            d = diff_kind(got, exp, allowed)
+            if d:
+                out.append(("fail", f"{fmt}:route={route}:{cls}:{d}", "written by the write_seqs app, loaded by the load_aligned app",
+                            {**base, "route": route, "observed": _show(got)}))
     # ragged family Q at the writers' DEFAULT wrap width: the block-3 case is widened position by position
     # (widths 1, 6, 53 = 60 per block, so the lengths 0/1/3/4/8 become 0/1/60/61/127) and written without block_size
     if c["fam"] == "Q" and block == 3:
